@@ -54,6 +54,7 @@ pub fn gen(rng: &mut Rng, tier: Tier, idx: u64) -> Case {
     c.cancel = gen_cancel(rng, &script, cp);
     c.read_script = script;
     c.read_tail = tail;
+    c.reader_style = rng.below(3) as u8;
     c
 }
 
